@@ -30,3 +30,15 @@ PROPS = {
         "assumes": ["Go regexp engine implements RulePattern as 'three comma-separated fields each 1-64 identifier chars or *' (validated differentially on every run)"],
     },
 }
+
+
+# per-property entries contributed as separate files: tools/props.d/<ID>.json
+# {"test": "TestCxx", "modelled": "...", "assumes": [...], "timeout": {"quick": 600, "thorough": 3000},
+#  "meta": {"text": "...", "note": "..."}}
+import glob as _glob, json as _json, os as _os
+EXTRA_META = {}
+for _f in sorted(_glob.glob(_os.path.join(_os.path.dirname(_os.path.abspath(__file__)), "props.d", "*.json"))):
+    _d = _json.load(open(_f))
+    _id = _os.path.basename(_f)[:-5]
+    EXTRA_META[_id] = _d.pop("meta", None)
+    PROPS[_id] = _d
